@@ -77,7 +77,7 @@ def decode(d):
 
 
 def parts(tier):
-    n = 2500 if tier == "quick" else 20000
+    n = 10000 if tier == "quick" else 40000
     return [core.Part("histories", "sampled", lambda: gen.cases(decode, 768), budget=n)]
 
 
